@@ -25,7 +25,8 @@ class Contract:
         self.types: Dict[str, str] = kw.pop("types", {})
         self.returns: str = kw.pop("returns", "Any")
         self.requires: str = kw.pop("requires", "True")
-        self.ensures: Optional[str] = kw.pop("ensures", None)
+        # str, or {clause_name: clause} -- named clauses give one obligation each
+        self.ensures: Any = kw.pop("ensures", None)
         # functional contract: result == <expr>; call sites substitute expr
         self.result_is: Optional[str] = kw.pop("result_is", None)
         # {"ExcName": "condition under which it may (and must be allowed to) be raised"}
@@ -47,6 +48,19 @@ class Contract:
         self.path_hints: Dict[str, Any] = kw.pop("path_hints", {})
         if kw:
             raise TypeError(f"unknown contract fields {list(kw)} in {key}")
+
+    def ensures_items(self):
+        if not self.ensures:
+            return []
+        if isinstance(self.ensures, dict):
+            return list(self.ensures.items())
+        return [("", self.ensures)]
+
+    def ensures_text(self) -> Optional[str]:
+        items = self.ensures_items()
+        if not items:
+            return None
+        return " and ".join(f"({c})" for _, c in items)
 
 
 class Spec:
@@ -205,6 +219,17 @@ def native_env(reg: Registry, extra: Optional[Dict[str, Any]] = None) -> Dict[st
     for s in reg.specs.values():
         env[s.name] = mk_spec(s)
     env["py_mod"] = lambda a, b: a % b
+    env["count_eq"] = lambda s_, x, k: sum(1 for i in range(max(0, min(k, len(s_)))) if s_[i] == x)
+    env["ite"] = lambda c, a, b: a if c else b
+
+    def _clause_of(which):
+        def f(name, **bind):
+            cc = reg.by_name(name)
+            text = cc.requires if which == "pre" else (cc.ensures_text() or "True")
+            return bool(eval_clause(text, reg, bind))
+        return f
+    env["post"] = _clause_of("post")
+    env["pre"] = _clause_of("pre")
     if extra:
         env.update(extra)
     return env
